@@ -10,18 +10,114 @@ def cfgs(ctx):
     return ["A", "B"] if ctx.tier == "quick" else ["A", "B", "C", "D"]
 
 
+def numeric(ctx, db, path, rules_, weighted=False, pair=False, accessor_args=None, laws=(), extra_contracts=None, e_extra=(), skip=(), only=None):
+    """run the shared scenarios of one estimator once and apply the selected numeric-structure rules"""
+    import num_rules as N
+    e = Est(db, path)
+    if not e.exists():
+        return None
+    scen = N.est_scenarios(ctx, db, e, weighted=weighted, pair=pair, accessor_args=accessor_args, skip=skip, only=only)
+    scen["contracts"] = extra_contracts or {}
+    if "count" in rules_:
+        R.r_count(ctx, db, e, db.cfg)
+    if "dim" in rules_:
+        N.r_dim(ctx, db, e, scen, extra_contracts)
+    if "sign" in rules_:
+        N.r_sign(ctx, db, e, scen, weighted=weighted)
+    if "div" in rules_:
+        N.r_div(ctx, db, e, scen, weighted=weighted)
+    if "shift" in rules_:
+        ef = N.mean_fields(scen) | set(e_extra)
+        if pair:
+            efx = N.mean_fields(scen, ("mean_x",))
+            efy = N.mean_fields(scen, ("mean_y",))
+            N.r_shift(ctx, db, e, scen, efx, axis_params=(0,), label="X")
+            N.r_shift(ctx, db, e, scen, efy, axis_params=(1,), label="Y")
+        else:
+            N.r_shift(ctx, db, e, scen, ef, axis_params=(0,), label="X")
+    if laws:
+        R.laws_add_merge(ctx, db, e, laws, assume=R.weights_assumer(db, e, True) if weighted else None,
+                         arg_assume=R.weighted_args if weighted else None)
+    return e, scen
+
+
+def moment_args(N_):
+    return {"central_moment": [(p,) for p in range(0, N_ + 1)], "standardized_moment": [(p,) for p in range(0, N_ + 1)]}
+
+
+def moment_contracts(N_):
+    c = {}
+    for p in range(0, N_ + 1):
+        c["central_moment(%d)" % p] = ({"X": p}, "nonneg" if p == 2 else None, "I")
+        c["standardized_moment(%d)" % p] = ({}, None, "I")
+    return c
+
+
 def c01(ctx):
-    for cfg in ("A", "B"):
+    n = 0
+    for cfg in ("B", "A"):
         db = ctx.db(cfg)
-        n = 0
         for t in ("moments::Mean", "moments::Variance"):
-            e = Est(db, t)
-            if not e.exists():
+            r = numeric(ctx, db, t, ("count", "dim", "sign", "div", "shift") if cfg == "B" else ("count",),
+                        laws=("L1", "L2", "L3", "L4") if cfg == "B" else ())
+            if r:
+                n += 1
+                if cfg == "B":
+                    import num_laws as NL
+                    NL.accessor_laws(ctx, db, r[0])
+                    kind = t.split("::")[-1]
+                    for k in ((1, 2, 4) if ctx.tier == "quick" else (1, 2, 3, 4, 5, 6)):
+                        NL.stream_definitions(ctx, db, r[0], k, NL.defs_moments(kind), min_k={"sample_variance": 2, "variance_of_mean": 2, "error": 2})
+    ctx.floor("Mean/Variance analysed over cfgs", n, 4)
+
+
+def c03(ctx):
+    import num_laws as NL
+    db = ctx.db("B")
+    n = 0
+    for t in ("moments::Skewness", "moments::Kurtosis"):
+        r = numeric(ctx, db, t, ("count", "dim", "sign", "div", "shift"), laws=("L1", "L2", "L3", "L4"))
+        if not r:
+            continue
+        n += 1
+        NL.accessor_laws(ctx, db, r[0])
+        kind = t.split("::")[-1]
+        for k in ((2, 4) if ctx.tier == "quick" else (2, 3, 4, 5, 6)):
+            NL.stream_definitions(ctx, db, r[0], k, NL.defs_moments(kind), min_k={"sample_variance": 2, "error_mean": 2, "skewness": 2, "kurtosis": 2})
+    ctx.floor("Skewness/Kurtosis analysed", n, 2)
+
+
+def moment_types(ctx, db):
+    out = [("Moments4", 4)]
+    for t, N_ in (("m4::M4", 4), ("m5::M5", 5), ("m6::M6", 6), ("m8::M8", 8), ("m10::M10", 10)):
+        if ctx.tier == "quick" and t in ("m4::M4", "m8::M8"):
+            continue
+        out.append((t, N_))
+    return [(t, N_) for t, N_ in out if Est(db, t).exists()]
+
+
+def c04(ctx):
+    import num_laws as NL
+    n = 0
+    for cfg in ("B", "A"):
+        db = ctx.db(cfg)
+        for t, N_ in moment_types(ctx, db):
+            if cfg == "A" and t != "m5::M5":
+                continue   # cfg A (serde arm of define_moments_inner!) is the same expansion; one instantiation cross-checks it
+            r = numeric(ctx, db, t, ("count", "dim", "sign", "div", "shift"), accessor_args=moment_args(N_),
+                        skip=("sample_skewness", "sample_excess_kurtosis", "sample_variance"),
+                        extra_contracts=moment_contracts(N_), laws=("L1", "L2", "L3", "L4") if (N_ <= 6 or ctx.tier == "thorough") else ("L1", "L2", "L3"))
+            if not r:
                 continue
             n += 1
-            R.r_count(ctx, db, e, cfg)
-            if cfg == 'B': R.laws_add_merge(ctx, db, e)
-        ctx.floor("estimator types analysed (cfg %s)" % cfg, n, 2)
+            R.r_binom(ctx, db, t, N_)
+            ks = (2, N_ + 1) if ctx.tier == "quick" else tuple(range(2, N_ + 3))
+            defs = {k_: v for k_, v in NL.defs_moments("Moments", N_).items() if k_ not in ("sample_skewness", "sample_excess_kurtosis", "sample_variance")}
+            for k in ks:
+                if ctx.tier == "quick" and N_ >= 8 and k > 6:
+                    k = 6
+                NL.stream_definitions(ctx, db, r[0], k, defs)
+    ctx.floor("define_moments! instantiations analysed", n, 5)
 
 
 def c02(ctx):
@@ -364,7 +460,173 @@ def c18(ctx):
                 ctx.ob("R-SERDE", "nested-state-covered", t, "-", ty["path"] in SERDE_TYPES, "field %s has state type %s" % (f["name"], ty["path"]), nontrivial=False)
 
 
+def c10(ctx):
+    import num_laws as NL
+    import num_rules as N
+    db = ctx.db("B")
+    n = 0
+    fam = [("moments::Variance", "Variance"), ("moments::Skewness", "Skewness"), ("moments::Kurtosis", "Kurtosis"),
+           ("weighted_mean::WeightedMeanWithError", "WMWE")]
+    for t, kind in fam:
+        e = Est(db, t)
+        if not e.exists():
+            continue
+        n += 1
+        NL.accessor_laws(ctx, db, e)
+    for t, N_ in moment_types(ctx, db):
+        e = Est(db, t)
+        n += 1
+        NL.accessor_laws(ctx, db, e)
+        NL.moments_sample_laws(ctx, db, e)
+        scen = N.est_scenarios(ctx, db, e, only=("sample_variance", "sample_skewness", "sample_excess_kurtosis"), nmin_generic=4,
+                               accessor_args={"central_moment": [(2,), (3,), (4,)]})
+        N.r_dim(ctx, db, e, scen, moment_contracts(4))
+        N.r_div(ctx, db, e, scen)
+        defs = {k_: v for k_, v in NL.defs_moments("Moments", N_).items() if k_ in ("sample_skewness", "sample_excess_kurtosis", "sample_variance")}
+        for k in ((3, 5) if ctx.tier == "quick" else (2, 3, 4, 5, 6, 7)):
+            NL.stream_definitions(ctx, db, e, k, defs, key="L0", min_k={"sample_variance": 2, "sample_skewness": 3, "sample_excess_kurtosis": 4})
+        R.r_sentinel(ctx, db, e, "Moments", N=N_, only=("sample_variance", "sample_skewness", "sample_excess_kurtosis"))
+    for t, kind in fam[:3]:
+        e = Est(db, t)
+        if e.exists():
+            R.r_sentinel(ctx, db, e, kind, only=("sample_variance", "variance_of_mean", "error", "error_mean"))
+    ctx.floor("types with bias-corrected statistics analysed", n, 8)
+
+
+def weighted_defs(kind):
+    import num_laws as NL
+    F_ = NL
+    sw = lambda o: F_.fsum([a[1] for a in o])
+    swx = lambda o: F_.fsum([F_.fmul(a[1], a[0]) for a in o])
+    sww = lambda o: F_.fsum([F_.fmul(a[1], a[1]) for a in o])
+    xs = lambda o: [a[0] for a in o]
+    d = {}
+    if kind == "WeightedMean":
+        d["mean"] = lambda o: F_.fdiv(swx(o), sw(o))
+        d["sum_weights"] = sw
+    else:
+        d["weighted_mean"] = lambda o: F_.fdiv(swx(o), sw(o))
+        d["sum_weights"] = sw
+        d["sum_weights_sq"] = sww
+        d["effective_len"] = lambda o: F_.fdiv(F_.fmul(sw(o), sw(o)), sww(o))
+        d["unweighted_mean"] = lambda o: F_.mean_of(xs(o))
+        d["population_variance"] = lambda o: F_.central(xs(o), 2)
+        d["sample_variance"] = lambda o: F_.fdiv(F_.fmul(F_.central(xs(o), 2), F_.flit(len(o))), F_.flit(len(o) - 1))
+        d["variance_of_weighted_mean"] = lambda o: F_.fmul(F_.fdiv(F_.fmul(F_.central(xs(o), 2), F_.flit(len(o))), F_.flit(len(o) - 1)),
+                                                           F_.fdiv(sww(o), F_.fmul(sw(o), sw(o))))
+    return d
+
+
+def cov_defs():
+    import num_laws as NL
+    import fnode as F
+    F_ = NL
+    xs = lambda o: [a[0] for a in o]
+    ys = lambda o: [a[1] for a in o]
+
+    def co(o):
+        mx, my = F_.mean_of(xs(o)), F_.mean_of(ys(o))
+        return F_.fsum([F_.fmul(F_.fsub(a[0], mx), F_.fsub(a[1], my)) for a in o])
+    d = {
+        "mean_x": lambda o: F_.mean_of(xs(o)), "mean_y": lambda o: F_.mean_of(ys(o)),
+        "population_variance_x": lambda o: F_.central(xs(o), 2), "population_variance_y": lambda o: F_.central(ys(o), 2),
+        "sample_variance_x": lambda o: F_.fdiv(F_.fmul(F_.central(xs(o), 2), F_.flit(len(o))), F_.flit(len(o) - 1)),
+        "sample_variance_y": lambda o: F_.fdiv(F_.fmul(F_.central(ys(o), 2), F_.flit(len(o))), F_.flit(len(o) - 1)),
+        "population_covariance": lambda o: F_.fdiv(co(o), F_.flit(len(o))),
+        "sample_covariance": lambda o: F_.fdiv(co(o), F_.flit(len(o) - 1)),
+        "pearson": lambda o: F_.fdiv(co(o), F.fn("sqrt", F_.fmul(F_.fmul(F_.central(xs(o), 2), F_.flit(len(o))), F_.fmul(F_.central(ys(o), 2), F_.flit(len(o)))))),
+    }
+    return d
+
+
+def c08(ctx):
+    import num_laws as NL
+    import num_rules as N
+    import forward_rules as FW
+    db = ctx.db("B")
+    n = 0
+    for t, kind, wstats in (("weighted_mean::WeightedMean", "WeightedMean", ("mean", "sum_weights", "is_empty")),
+                            ("weighted_mean::WeightedMeanWithError", "WeightedMeanWithError",
+                             ("weighted_mean", "sum_weights", "sum_weights_sq"))):
+        r = numeric(ctx, db, t, ("dim", "sign", "div", "shift") + (("count",) if kind != "WeightedMean" else ()), weighted=True,
+                    laws=("L1", "L2", "L3", "L4"))
+        if not r:
+            continue
+        n += 1
+        e, scen = r
+        N.r_zerow(ctx, db, e, wstats)
+        N.r_convex(ctx, db, e, scen, N.mean_fields(scen), weighted=True)
+        R.r_ident_merge(ctx, db, e)
+        FW.r_forward_ingest(ctx, db, e, max_items=2)
+        NL.accessor_laws(ctx, db, e)
+        for k in ((1, 3) if ctx.tier == "quick" else (1, 2, 3, 4, 5)):
+            NL.stream_definitions(ctx, db, e, k, weighted_defs(kind), arity=2, build_args="weighted",
+                                  min_k={"sample_variance": 2, "variance_of_weighted_mean": 2})
+    ctx.floor("weighted estimators analysed", n, 2)
+
+
+def c09(ctx):
+    import num_laws as NL
+    import num_rules as N
+    import forward_rules as FW
+    db = ctx.db("B")
+    r = numeric(ctx, db, "covariance::Covariance", ("count", "dim", "sign", "div", "shift"), pair=True, laws=("L1", "L2", "L3", "L4"))
+    n = 0
+    if r:
+        n = 1
+        e, scen = r
+        R.r_ident_merge(ctx, db, e)
+        FW.r_forward_ingest(ctx, db, e, max_items=2)
+        for k in ((1, 2, 4) if ctx.tier == "quick" else (1, 2, 3, 4, 5)):
+            NL.stream_definitions(ctx, db, e, k, cov_defs(), arity=2, build_args="pair",
+                                  min_k={"sample_variance_x": 2, "sample_variance_y": 2, "sample_covariance": 2, "pearson": 2})
+        NL.cov_swap(ctx, db, e, 3)
+    ctx.floor("Covariance analysed", n, 1)
+
+
+def c17(ctx):
+    import num_rules as N
+    db = ctx.db("B")
+    n = 0
+    specs = [("moments::Mean", {}, ()), ("moments::Variance", {}, ()), ("moments::Skewness", {}, ()), ("moments::Kurtosis", {}, ()),
+             ("covariance::Covariance", {"pair": True}, ()),
+             ("weighted_mean::WeightedMean", {"weighted": True}, ()), ("weighted_mean::WeightedMeanWithError", {"weighted": True}, ())]
+    for t, kw, _ in specs:
+        e = Est(db, t)
+        if not e.exists():
+            continue
+        n += 1
+        scen = N.est_scenarios(ctx, db, e, **kw)
+        N.r_sign(ctx, db, e, scen, weighted=kw.get("weighted", False))
+        if kw.get("pair"):
+            N.r_convex(ctx, db, e, scen, N.mean_fields(scen, ("mean_x",)), axis_params=(0,), label="X")
+            N.r_convex(ctx, db, e, scen, N.mean_fields(scen, ("mean_y",)), axis_params=(1,), label="Y")
+            N.r_shift(ctx, db, e, scen, N.mean_fields(scen, ("mean_x",)), axis_params=(0,), label="X")
+            N.r_shift(ctx, db, e, scen, N.mean_fields(scen, ("mean_y",)), axis_params=(1,), label="Y")
+        else:
+            N.r_convex(ctx, db, e, scen, N.mean_fields(scen), weighted=kw.get("weighted", False))
+            N.r_shift(ctx, db, e, scen, N.mean_fields(scen))
+    for t, N_ in moment_types(ctx, db):
+        e = Est(db, t)
+        n += 1
+        scen = N.est_scenarios(ctx, db, e, accessor_args={"central_moment": [(2,)]}, skip=("sample_skewness", "sample_excess_kurtosis"))
+        scen["contracts"] = moment_contracts(N_)
+        N.r_sign(ctx, db, e, scen)
+        N.r_convex(ctx, db, e, scen, N.mean_fields(scen))
+    import hist_rules as H
+    for e, ln, consts in hist_types(ctx, db):
+        if ln <= 4:
+            H.r_bin_variance_range(ctx, db, e, ln, consts)
+    ctx.floor("estimator types analysed for signs/ranges", n, 10)
+
+
 PROPS = {
+    "C08": {"run": c08, "level": "other", "explanation": "weighted mean"},
+    "C09": {"run": c09, "level": "other", "explanation": "covariance"},
+    "C17": {"run": c17, "level": "other", "explanation": "signs and ranges"},
+    "C10": {"run": c10, "level": "other", "explanation": "sample statistics"},
+    "C03": {"run": c03, "level": "other", "explanation": "skewness/kurtosis"},
+    "C04": {"run": c04, "level": "other", "explanation": "define_moments"},
     "C18": {"run": c18, "level": "other", "explanation": "serde structure"},
     "C19": {"run": c19, "level": "other", "explanation": "rayon wiring"},
     "C20": {"run": c20, "level": "proof", "explanation": "ingestion"},
